@@ -415,7 +415,7 @@ def _registered_rules(prog, rep, registered):
                 rep.ob("R02.5", fi.name, ok, f"element gradients use the same variable ({src(c_)})" if ok else f"{src(c_)} differentiates an element with respect to a different variable", loc=f"{fi.module.rel}:{c_.lineno}", detail=f"same-wrt:{src(c_.args[0])}")
         # loops: per-element term
         for loop in [n for n in walk_local(fi.node) if isinstance(n, ast.For)]:
-            term = _loop_term(loop, fi, ex, wrt)
+            term = _loop_term(loop, fi, ex, wrt, kind)
             if term is None:
                 continue
             key, got, want, line = term
@@ -461,7 +461,7 @@ def _is_container_ref(node, fi, ex):
     return False
 
 
-def _loop_term(loop, fi, ex, wrt):
+def _loop_term(loop, fi, ex, wrt, kind=None):
     """Per-element contribution inside `for elem in vec._expressions:` accumulation loops."""
     body = loop.body
     env = {}
@@ -504,21 +504,20 @@ def _loop_term(loop, fi, ex, wrt):
             env[nm] = DE
         else:
             env[nm] = v
-    kind = None
     s = src(loop)
     tr = Tr(env, gather=lambda n: al.A("c") if isinstance(n, ast.Call) and dotted(n.func) == "Constant" and "coeffs[" in src(n) else None)
     try:
         got = tr.t(term_node)
     except Untranslatable:
         return None
-    if "coeffs[" in s:
-        return "c_i * d(elem)", got, al.A("c") * DE, loop.lineno
-    if "abs_(" in s:
-        return "sign(elem) * d(elem)", got, E / al.ABS(E) * DE, loop.lineno
-    if f"_simplify_div({elem}, {ex})" in s:
-        return "elem/||f|| * d(elem)", got, E / N * DE, loop.lineno
-    if got.eq(DE):
-        return "d(elem)", got, DE, loop.lineno
+    refs = {
+        "LinearCombination": ("c_i * d(elem)", al.A("c") * DE),
+        "VectorExpressionSum": ("d(elem)", DE),
+        "L2Norm": ("elem/||f|| * d(elem)", E / N * DE),
+        "L1Norm": ("sign(elem) * d(elem)", E / al.ABS(E) * DE),
+    }
+    if kind in refs:
+        return refs[kind][0], got, refs[kind][1], loop.lineno
     return None
 
 
